@@ -1140,7 +1140,7 @@ def c10_send_errors(ctx, verdict, intensive=False):
                                dict(kind='window', driver='c10s', case=line, meta=meta, implementation=io,
                                     schedule=['real Session (method %d, %s, MsgOnWireSizeLimit %d) over a TLSConn over a recording connection; operations in order: %s' % (
                                         meta['method'], 'unordered' if meta['unordered'] else 'ordered', meta['limit'], ' '.join(line.split()[5:])),
-                                        'per operation: <n>:<err>;<bytes written>:<record header ok>:<stream>.<seq>.<closing>.<payload> ...', io.split(' ', 1)[1] if ' ' in io else io],
+                                        'per operation: <n>:<err>;<bytes written>:<record header ok>:<stream>.<seq>.<closing>.<payload> ...', io],
                                     how='python3 tools/check.py C10 --replay <this file>  (VERIF_IN=<file with the case line> go test -overlay .. -run TestVerifC10Send ./internal/multiplex/)'))
     verdict.cov['send_path_cases'] = dict(cases=len(cases), ran=len(impl), records_checked=nrec, readfrom_sources_with_empty_reads=nzero, oracle_failures=len(fails), go_seconds=round(dt, 1),
                                           rule='Stream.Write (0, 1, max-1, max, max+1, several frames), Stream.ReadFrom over sources whose reads return 0 bytes with a nil error / more than a frame / nothing, obfuscateAndSend with an empty payload and with a send buffer that is too small, Stream.Close (also repeated), Session.Close; 4 methods, ordered and unordered, MsgOnWireSizeLimit 16401/1000/600; every buffer handed to the connection checked and decoded')
